@@ -414,6 +414,27 @@ def optimize_circuit(seq):
     return DAG_to_list(DAG)
 
 
+def measurement_options(op):
+    """Post-selection values and dark counts of an operation (``None`` where it has none).
+
+    These keyword arguments of the measurement operations are not part of ``op.p``, but they
+    change what the measurement does, so they take part in program comparisons.
+
+    Args:
+        op (Operation): quantum operation
+
+    Returns:
+        tuple: ``(select, dark_counts)``, each either ``None`` or a tuple of values
+    """
+    options = []
+    for name in ("select", "dark_counts"):
+        val = getattr(op, name, None)
+        if val is not None:
+            val = tuple(np.atleast_1d(val).tolist())
+        options.append(val)
+    return tuple(options)
+
+
 def program_equivalence(prog1, prog2, compare_params=True, atol=1e-6, rtol=0):
     r"""Checks if two programs are equivalent.
 
@@ -492,6 +513,9 @@ def program_equivalence(prog1, prog2, compare_params=True, atol=1e-6, rtol=0):
         if compare_params:
             parameter_mapping = {i: par_evaluate(n.op.p) for i, n in enumerate(G.nodes())}
             nx.set_node_attributes(circuit[-1], parameter_mapping, name="p")
+            # post-selection values and dark counts are parameters of a measurement too
+            option_mapping = {i: measurement_options(n.op) for i, n in enumerate(G.nodes())}
+            nx.set_node_attributes(circuit[-1], option_mapping, name="m")
 
         # add node attributes to store the operation name
         # a gate and its inverse (dagger) are different operations
@@ -509,7 +533,7 @@ def program_equivalence(prog1, prog2, compare_params=True, atol=1e-6, rtol=0):
 
         if compare_params:
             p_match = np.allclose(n1["p"], n2["p"], atol=atol, rtol=rtol)
-            return name_match and p_match and wire_match
+            return name_match and p_match and wire_match and n1["m"] == n2["m"]
 
         return name_match and wire_match
 
